@@ -157,6 +157,8 @@ def execute(record, ctx):
 def _brief(spec):
     if spec['kind'] == 'yaml':
         return {'yaml': spec['yaml']}
+    if spec.get('world') is None:
+        return {'chain': spec['chain'], 'reset': spec['reset'], 'actions': spec['actions']}
     return {'chain': spec['chain'], 'shape': [spec['world']['h'], spec['world']['w']], 'agent': spec['world']['agent'], 'actions': spec['actions']}
 
 
